@@ -192,10 +192,6 @@ func (*c33Engine) Execute(t *testing.T, c *Case) *Verdict {
 			oc.Err = rerr.Inspect()
 		}
 		mainDone = true
-		if keepGoing {
-			// let idle pool workers end so that "every task exited" can be observed
-			vm.DefaultThreadPool.Close()
-		}
 	})
 	if envp != nil {
 		oc.Out = envp.Out.String()
@@ -235,6 +231,11 @@ func (*c33Engine) Execute(t *testing.T, c *Case) *Verdict {
 			v.Verdict, v.Class = "inconclusive", "no_cancel:"+res.Outcome
 		}
 		return v
+	}
+	if res.Outcome == "deadlock" && mainDone && onlyIdlePoolWorkers(res.State) {
+		// the main thread and every go thread have ended; what is left are the
+		// workers of the thread pool waiting for tasks
+		res.Outcome = "ok"
 	}
 	switch res.Outcome {
 	case "steplimit":
@@ -297,4 +298,16 @@ func (*c33Engine) Shrink(c *Case) []*Case {
 		}
 	}
 	return out
+}
+
+
+// onlyIdlePoolWorkers reports whether every task of a deadlock state vector is
+// a thread pool worker blocked on its task queue.
+func onlyIdlePoolWorkers(state string) bool {
+	for _, f := range strings.Fields(state) {
+		if !strings.Contains(f, "vm/thread_pool.go") || !strings.Contains(f, "chanrange") {
+			return false
+		}
+	}
+	return true
 }
